@@ -72,10 +72,11 @@ class Lock:
         self.f.close()
 
 
-def _run(cmd, what):
+def _run(cmd, what, quiet=False):
     r = subprocess.run(cmd, stdout=subprocess.PIPE, stderr=subprocess.STDOUT, text=True)
     if r.returncode != 0:
-        sys.stderr.write("BUILD FAILED (%s): %s\n%s\n" % (what, " ".join(cmd), r.stdout[-4000:]))
+        if not quiet:
+            sys.stderr.write("BUILD FAILED (%s): %s\n%s\n" % (what, " ".join(cmd), r.stdout[-4000:]))
         raise SystemExit(2)
 
 
@@ -137,7 +138,13 @@ def build_harness(variant, harness_files, exe, extra_link=(), extra_cflags=(), o
         os.makedirs(tmp)
         cmd = [cc] + COMMON + hflags + list(extra_cflags) + hs + objs + list(extra_objs) + \
             ["-o", os.path.join(tmp, exe)] + ldflags + list(extra_link)
-        _run(cmd, exe + "/" + variant)
+        try:
+            _run(cmd, exe + "/" + variant, quiet=(exe == "hexec"))
+        except SystemExit:
+            if exe != "hexec":
+                raise
+            # the struct dump helper names internal fields; if they were renamed the executor is built without it
+            _run(cmd[:1] + ["-DHX_NO_STATE_DUMP"] + cmd[1:], exe + "/" + variant)
         shutil.rmtree(out, ignore_errors=True)
         os.rename(tmp, out)
         _gc(name, out)
@@ -198,8 +205,8 @@ def sched():
                 shutil.rmtree(tmp, ignore_errors=True)
                 raise SystemExit(2)
             objs.append(o)
-        _run(["gcc"] + COMMON + ["-O1", os.path.join(HARNESS, "sched.c")] + objs + ["-o", os.path.join(tmp, "sched"), "-pthread"],
-             "sched")
+        _run(["gcc"] + COMMON + ["-O1", os.path.join(HARNESS, "sched.c")] + objs + ["-o", os.path.join(tmp, "sched"), "-pthread",
+              "-Wl,--wrap=pthread_once,--wrap=call_once,--wrap=pthread_mutex_lock,--wrap=pthread_mutex_unlock"], "sched")
         with open(os.path.join(tmp, "granularity"), "w") as f:
             f.write(gran)
         shutil.rmtree(out, ignore_errors=True)
